@@ -5,7 +5,8 @@
 #   make REPO=/repo bin/<harness>.<variant>
 #
 # variants: plain (g++ -O1), asan (g++ ASan+UBSan), omp (g++ -fopenmp), mpi (g++ + minimpi + vsched),
-#           vs (g++ + vsched pthread interposition), tsan (clang++ -fsanitize=thread, free running)
+#           vs (g++ + vsched pthread interposition), tsan (clang++ -fsanitize=thread, free running),
+#           rmpi (mpicxx against the real <mpi.h>: only harness/c13_real.cpp, the OpenMPI cross-run of C13)
 REPO ?= /repo
 ROOT := $(abspath $(dir $(lastword $(MAKEFILE_LIST))))
 TAG  := $(shell printf '%s' '$(REPO)' | md5sum | cut -c1-8)
@@ -21,6 +22,7 @@ CXX_omp   := $(CXX_GNU)
 CXX_mpi   := $(CXX_GNU)
 CXX_vs    := $(CXX_GNU)
 CXX_tsan  := $(CXX_CLANG)
+CXX_rmpi  := mpicxx
 
 FLAGS_plain := -O1 -g0
 FLAGS_asan  := -O1 -g1 -fsanitize=address,undefined -fno-sanitize=nonnull-attribute,null -fno-sanitize-recover=all -fno-omit-frame-pointer -DVERIF_ASAN
@@ -28,6 +30,7 @@ FLAGS_omp   := -O1 -g0 -fopenmp -DVERIF_WITH_OMP
 FLAGS_mpi   := -O1 -g0 -DVERIF_WITH_MPI -I$(ROOT)/engine/minimpi
 FLAGS_vs    := -O1 -g0 -DVERIF_VSCHED
 FLAGS_tsan  := -O1 -g1 -fsanitize=thread -DVERIF_TSAN
+FLAGS_rmpi  := -O1 -g0 -DVERIF_WITH_MPI -DVERIF_REAL_MPI
 
 LIBS_plain :=
 LIBS_asan  := -fsanitize=address,undefined
@@ -35,6 +38,7 @@ LIBS_omp   := -fopenmp
 LIBS_mpi   := $(B)/mpi/e/minimpi.o $(B)/mpi/e/vsched.o $(B)/mpi/e/vsched_pthread.o
 LIBS_vs    := $(B)/vs/e/vsched.o $(B)/vs/e/vsched_pthread.o
 LIBS_tsan  := -fsanitize=thread
+LIBS_rmpi  :=
 
 KSRC := kernel/adjacency/coloring.cpp kernel/adjacency/graph.cpp kernel/adjacency/cuthill_mckee.cpp \
         kernel/adjacency/permutation.cpp kernel/util/memory_pool.cpp kernel/util/property_map.cpp \
@@ -47,7 +51,7 @@ KSRC := kernel/adjacency/coloring.cpp kernel/adjacency/graph.cpp kernel/adjacenc
         kernel/geometry/test_aux/standard_tria.cpp kernel/geometry/test_aux/tetris_hexa.cpp \
         kernel/geometry/test_aux/tetris_quad.cpp kernel/geometry/test_aux/validate_structured_meshes.cpp
 
-VARIANTS := plain asan omp mpi vs tsan
+VARIANTS := plain asan omp mpi vs tsan rmpi
 
 .SECONDARY:
 .PHONY: cfg all clean
